@@ -591,6 +591,13 @@ def run(ctx):
         runpass.run_rules(ctx, F, "C06")
     except Unrecognised as e:
         ctx.unrecognised("C06.run-merging", e.msg, e.fn, e.line)
+    # bit-identical weights: the split into rank pairs must compare weights exactly and against the probe's weight (C12's rule)
+    try:
+        from rules import c12
+        from sa.report import PrefixCtx
+        c12.run(PrefixCtx(ctx, "C12", "C06", allowed=["probes", "leftovers"]))
+    except Unrecognised as e:
+        ctx.unrecognised("C06.probes", e.msg, e.fn, e.line)
     ctx.assume("tokens are well formed (ranks ordered as the notation requires, the two cards of a card pair differ): the parser's order / distinctness guards are the token's domain")
     ctx.assume("f32 Display prints the shortest decimal that parses back to the same bits, without exponent, and f32::from_str inverts it (std guarantee)")
     ctx.assume("that the emitted token list denotes exactly the range is not decided (run merging and leftovers are runtime behaviour)")
